@@ -173,6 +173,30 @@ def sink_local_failures():
                              {"c": "send", "s": 3, "k": "q1", "id": 0}, {"c": "poll", "s": 3},
                              {"c": "settle"}]
                     runs.append(dict(cfg=cfg, cmds=cmds, src="local_failure"))
+            # sends refused because a streamed publish still owes payload (ExpectPayload) are local failures too: the
+            # stream is completed afterwards and acknowledged, and later sends must succeed
+            for refused in ("q0", "q1", "q2", "stream0", "stream1"):
+                for first in ("stream1", "stream0"):
+                    cfg = dict(role=role, ver=ver, max_send=4, gate_pub=1)
+                    hs = {"rm": 4, "mps": 64} if ver == 5 else None
+                    cmds = [handshake(role, ver, connack=hs, connect=hs)]
+                    a = {"c": "send", "s": 1, "k": first, "plen": 6}
+                    if first == "stream1":
+                        a["id"] = 0
+                    cmds += [a] + ([{"c": "poll", "s": 1}] if first == "stream1" else [])
+                    b = {"c": "send", "s": 2, "k": refused}
+                    if refused != "stream0" and refused != "q0":
+                        b["id"] = 0
+                    if refused in ("stream0", "stream1", "q0"):
+                        b["plen"] = 3
+                    cmds += [b] + ([{"c": "poll", "s": 2}] if refused not in ("q0", "stream0") else [])
+                    if refused in ("stream0", "stream1"):
+                        cmds.append({"c": "sdrop", "s": 2})      # the handle of the refused publish goes away
+                    cmds += [{"c": "chunk", "s": 1, "n": 2, "t": 41}, {"c": "chunk", "s": 1, "n": 4, "t": 42},
+                             {"c": "ack", "n": 1}, {"c": "poll", "s": 1},
+                             {"c": "send", "s": 3, "k": "q1", "id": 0}, {"c": "poll", "s": 3}, {"c": "ack", "n": 1}, {"c": "poll", "s": 3},
+                             {"c": "settle"}]
+                    runs.append(dict(cfg=cfg, cmds=cmds, src="refused_while_streaming"))
     return runs
 
 
@@ -1156,8 +1180,48 @@ def c08_decode_for(ver, role, win1=False):
     return dec
 
 
-def c08_configs(tier):
+OUT_CFG = """SPECIFICATION ExportSpec
+CONSTANTS
+  Ver = {ver}
+  Toks <- {toks}
+  MaxLen = {n}
+VIEW view
+INVARIANT TypeOk
+CHECK_DEADLOCK FALSE
+"""
+
+OUT_TOK = {"q0": 1, "q1": 2, "q2": 3, "s1": 4, "c2": 5, "c4": 6, "c7": 7, "sd": 8, "s0": 9, "q1long": 10, "q1big": 11,
+           "q1id1": 12, "ack": 14, "q0id": 17, "s1long": 18}
+
+
+def out_decode_for(ver, role):
+    """behaviours of the write-path model Out.tla: its tokens are the sink-operation tokens of this group"""
+    base = c08_decode_for(ver, role)
+
+    def dec(tokens, variant):
+        cfg, cmds = base([OUT_TOK[t] for t in tokens], variant)
+        return cfg, cmds
+    return dec
+
+
+OUT_CONFORM = dict(module="OutConform", tok2rec=lambda t: dict(t=t), tail=1, cmp=("out", "send_poll", "send_done"),
+                   project=lambda e: dict(e=e["e"], k=e["k"], s=e["s"], id=e["id"], q=e["q"]),
+                   drop=lambda e, r: e["e"] == "out" and e["k"] != "PUBLISH")
+
+
+def c08_model_configs(tier):
     cs = []
+    for ver in (3, 5):
+        for role in ("server", "client"):
+            cs.append((f"m_v{ver}{role[0]}_all", OUT_CFG.format(ver=ver, toks="TAll", n=3 if tier == "quick" else 4), "MC_Out",
+                       out_decode_for(ver, role), [None], 800 if tier == "quick" else 8000))
+            cs.append((f"m_v{ver}{role[0]}_strm", OUT_CFG.format(ver=ver, toks="TStream", n=4 if tier == "quick" else 5), "MC_Out",
+                       out_decode_for(ver, role), [None], 800 if tier == "quick" else 8000))
+    return cs
+
+
+def c08_configs(tier):
+    cs = c08_model_configs(tier)
     for ver in (3, 5):
         for role in ("server", "client"):
             if tier == "quick":
